@@ -9,8 +9,8 @@ import z3
 def main():
     mods = sys.argv[1].split(",")
     qual = sys.argv[2]
-    for m in mods:
-        importlib.import_module("contracts." + m)
+    from checks import driver
+    driver.load_contracts()
     only = sys.argv[3] if len(sys.argv) > 3 and not sys.argv[3].startswith("-") else None
     repo = Repo()
     concrete = None
